@@ -101,7 +101,13 @@ def rw_records(m, rid, cls):
 
 def exec_doc(scn):
     from reamber.quaver.QuaMap import QuaMap
-    text = concretize(scn, meta_for(scn["variant"]), style=scn["variant"] % 3)
+    meta = meta_for(scn["variant"])
+    # documents that omit metadata keys (the omitted key takes its own default)
+    for k in ((), ("MapSetId",), ("MapId", "Genre"), ("Title", "SongPreviewTime", "Mode"), ("MapSetId", "BackgroundFile"))[scn["variant"] % 5]:
+        meta.pop(k)
+    if scn["variant"] % 5 == 1:
+        meta["MapId"] = 31415
+    text = concretize(scn, meta, style=scn["variant"] % 3)
     out = []
     rec = {"id": scn["id"] + "/read", "op": "read", "cls": "qua.read", "exc": "", "doc": tokens(text), "chart": {}}
     m = None
